@@ -476,6 +476,48 @@ class Gen:
         return [S("cond"), [[S("="), 1, 2], bad], [S("else"), good]]
 
     # ------------------------------------------------------------------------------------ top level
+    def special_function(self, sc):
+        """Function shapes aimed at specific lowering paths (each returns (define-form, name, probe forms))."""
+        r = self.r
+        name = S("sf%d" % len(self.funcs))
+        k = r.randrange(3)
+        a, b, c = r.randint(1, 9), r.randint(1, 9), r.randint(0, 4)
+        if k == 0:
+            # internal defines interleaved with assignments: a later internal define must see the assignment
+            self.features.add("internal-define-sequence")
+            form = [S("define"), [name, S("a")],
+                    [S("define"), [S("inner"), S("z")], [S("+"), S("z"), 1]],
+                    [S("define"), S("v0"), a],
+                    [S("set!"), S("v0"), [S("+"), S("v0"), S("a")]],
+                    [S("define"), S("w"), [S("*"), S("v0"), 2]],
+                    [S("set!"), S("v0"), [S("inner"), S("v0")]],
+                    [S("define"), S("u"), [S("+"), S("v0"), S("w")]],
+                    [S("list"), S("v0"), S("w"), S("u")]]
+            self.funcs[name] = (["int"], "list", False)
+            probes = [[S("verif-emit"), [name, b]], [S("verif-emit"), [name, c]]]
+            return form, name, probes
+        if k == 1:
+            # a rest-parameter procedure that tail-calls itself by name with 0, 1, 2 or 3 rest arguments
+            self.features.add("rest-self-tail-call")
+            nrest = r.choice([0, 2, 3, 1])
+            extra = [r.randint(0, 9) for _ in range(nrest)]
+            form = [S("define"), [name, S("i"), S("acc"), DOT, S("more")],
+                    [S("if"), [S("<="), S("i"), 0], [S("list"), S("acc"), S("more")],
+                     [name, [S("-"), S("i"), 1], [S("+"), S("acc"), [S("length"), S("more")]]] + extra]]
+            self.funcs[name] = (["int", "int"], "list", True)
+            probes = [[S("verif-emit"), [name, r.randint(0, 4), 0]], [S("verif-emit"), [name, 2, 0, 7, 8]], [S("verif-emit"), [name, 0, 5]]]
+            return form, name, probes
+        # case-lambda with fixed and rest clauses, called at every arity incl. the minimum of the rest clause
+        self.features.add("case-lambda")
+        form = [S("define"), name, [S("case-lambda"),
+                                    [[S("p")], [S("list"), [S("quote"), S("one")], S("p")]],
+                                    [[S("p"), S("q")], [S("list"), [S("quote"), S("two")], S("p"), S("q")]],
+                                    [[S("p"), S("q"), S("s"), DOT, S("rest")], [S("list"), [S("quote"), S("many")], S("p"), S("s"), S("rest")]]]]
+        self.funcs[name] = (["int"], "list", False)
+        probes = [[S("verif-emit"), [name, a]], [S("verif-emit"), [name, a, b]], [S("verif-emit"), [name, a, b, c]],
+                  [S("verif-emit"), [name, a, b, c, 4, 5]], [S("verif-emit"), [S("apply"), name, [S("list"), a, b, c]]]]
+        return form, name, probes
+
     def define_function(self, sc, d):
         r = self.r
         name = S("f%d" % len(self.funcs)) if self.p(0.8) else S(r.choice(["helper", "go", "step"]) + str(len(self.funcs)))
@@ -546,6 +588,10 @@ class Gen:
                 name = S("g%d" % i)   # unique per unit: redefining a global inside one unit is rejected (BadSyntax)
                 forms.append([S("define"), name, self.expr(ty, top, d)])
                 top.add(name, ty, "global")
+            elif c < 0.31:
+                f, name, probes = self.special_function(top)
+                forms.append(f)
+                forms.extend(probes)
             elif c < 0.50:
                 f, name, recursive = self.define_function(top, d)
                 forms.append(f)
